@@ -21,7 +21,7 @@ Require Import Verif.Model.Base Verif.Model.Dec Verif.Model.Level Verif.Model.Mo
 Require Import Verif.Model.Quote Verif.Model.Attrs Verif.Model.Encode Verif.Model.Ansi.
 Require Import Verif.Proofs.EscP Verif.Proofs.SortP Verif.Proofs.AnsiP.
 Require Import Verif.Corr.C01 Verif.Corr.Enc.
-Require Verif.Gen.Colors Verif.Proofs.GenColorP Verif.Gen.Layout Verif.Gen.Tables Verif.Model.LayoutRef Verif.Proofs.GenLayoutP.
+Require Verif.Gen.Escapes Verif.Gen.Colors Verif.Proofs.GenColorP Verif.Gen.Layout Verif.Gen.Tables Verif.Model.LayoutRef Verif.Proofs.GenLayoutP.
 
 (* strconv.IsPrint on ASCII; the theorems hold for every such function *)
 Definition isprint_std (isprint : Z -> bool) : Prop :=
@@ -222,6 +222,21 @@ Theorem C06_gen_widths_stay_in_range : forall ws cur, 0 <= cur <= 5 ->
   0 <= fold_left Layout.set_level_output_width ws cur <= 5.
 Proof. exact GenLayoutP.widths_stay_in_range. Qed.
 Print Assumptions C06_gen_widths_stay_in_range.
+
+(* THE FIRST PART OF EVERY RECORD.  Entry.printTimestamp, translated from the source on every run (Gen/Layout.v) over
+   the other translations (pcAppendStringKey, the separators, echoColor): in the two plain formats the key `time`
+   (escaped as a key of the format), the separator, what appendTimestamp writes (C16), the member separator; in colour
+   mode the timestamp colour (SGR 32), the timestamp and ONE blank - for every buffer and every appendTimestamp. *)
+Theorem C06_gen_print_timestamp : forall f_ts hex safe pc noColor json buf,
+  Layout.print_timestamp f_ts hex safe pc noColor json buf =
+  if noColor
+  then match Escapes.string_key hex safe json buf [x74;x69;x6d;x65] with
+       | None => None
+       | Some b => Some (f_ts (b ++ [if json then x3a else x3d]) ++ [if json then x2c else x20])
+       end
+  else Some (f_ts (buf ++ echo_color clr_timestamp) ++ [x20]).
+Proof. exact GenLayoutP.gen_print_timestamp. Qed.
+Print Assumptions C06_gen_print_timestamp.
 
 Definition ex_isprint (r : Z) : bool := (32 <=? r) && (r <? 127).
 Definition ex_cfg : ecfg :=
